@@ -1,4 +1,32 @@
-"""C05 — every client request means at the device exactly what the caller asked for."""
+"""C05 — every client request means at the device exactly what the caller asked for.
+
+Line kinds (all but `sess` are also run by the Lean driver):
+  req start|cmninfo|chinfo|en|div …          client builders (`Parser.frame_*`)
+  req dstart|den|ddiv <payload> <n> <cur>    device-side decoders on a bare payload; the decoders are given a REAL
+                                             `nxslib.dev.Device` holding the current state (both vectors: the one the
+                                             line names and a second one derived from the line, so that a decoder that
+                                             reads the wrong vector is seen)
+  req hist <n> <en> <div> <w>,<w>,…          a HISTORY of writes received by ONE long-lived `Device` object through the
+                                             real dispatcher `ParseRecv.recv_handle` with enable/div callbacks that do
+                                             what `intf/dummy.py::DummyDev._enable_cb/_div_cb` do (decode against the
+                                             device's current vectors, store by per-channel attribute writes);
+                                             model: `Requests.devRun`
+  req sess <n> <pad> <en> <div> <ask>;…      the same device fed by the real client builders (+ `data_align`);
+                                             model: `Requests.session`, theorem `history_agrees`
+  sess cfg <flags> <en> <div> <ops>          session level (extra_checks, not in the driver): the real `CommHandler`
+                                             under harness/vsim.py connected to harness/refdev.py whose channels are
+                                             ALREADY enabled / have dividers at connect time; every ENABLE/DIV request
+                                             it emits is received by such a long-lived real `Device`; judged: that
+                                             device's state after each `channels_write()` == the state the caller asked for
+
+Channel-info request: the device side has NO decoder function for it (`ParseRecv` only checks the payload length; the
+callback of the device reads the channel id itself as payload byte 0, `intf/dummy.py::_chinfo_cb`: `data[0]`).  What is
+checked / proved for it is therefore the emitted bytes and that the dispatcher hands exactly the one byte `c` to the
+chinfo callback (`request_reaches_decoder_chinfo`).
+"""
+import random
+import zlib
+
 from common import Prop, hexs, unhex, exc_name
 from ref import ref_frame
 
@@ -11,24 +39,89 @@ def ints(l):
     return ",".join(str(int(x)) for x in l) or "-"
 
 
-class FakeDev:
-    """just what frame_enable_decode / frame_div_decode read from a Device"""
+def unbits(s):
+    return [] if s == "-" else [c == "1" for c in s]
 
-    def __init__(self, chmax, en, div):
-        class D:
-            pass
-        self.data = D()
-        self.data.chmax = chmax
-        self._en = list(en)
-        self._div = list(div)
 
-    @property
-    def channels_en(self):
-        return list(self._en)
+def unints(s):
+    return [] if s == "-" else [int(x) for x in s.split(",")]
 
-    @property
-    def channels_div(self):
-        return list(self._div)
+
+def state_diff(want, got):
+    """'en/div' strings -> the channels on which they differ (readable also for 255 channels)"""
+    try:
+        (we, wd), (ge, gd) = want.split("/"), got.split("/")
+        d = [f"en[{i}] {a}->{b}" for i, (a, b) in enumerate(zip(we, ge)) if a != b]
+        d += [f"div[{i}] {a}->{b}" for i, (a, b) in enumerate(zip(wd.split(","), gd.split(","))) if a != b]
+        return "; differs (intended->device) at " + ", ".join(d[:8]) + (f" and {len(d) - 8} more" if len(d) > 8 else "")
+    except Exception:
+        return ""
+
+
+def mk_device(n, en, div):
+    """a real nxslib Device holding the given current state"""
+    from nxslib.dev import Device, DeviceChannel
+    return Device(n, 3, 0, [DeviceChannel(i, 2, 1, f"c{i}", en=bool(en[i]), div=int(div[i])) for i in range(n)])
+
+
+def other_vec(line, n, kind):
+    """the vector the line does not name (enable state for a divider line and vice versa), derived from the line"""
+    r = random.Random(zlib.crc32(line.encode()))
+    if kind == "en":
+        return [r.choice([0, 1, 2, 3, 7, 128, 200, 255]) for _ in range(n)]    # dividers
+    return [r.random() < 0.5 for _ in range(n)]                                 # enables
+
+
+class RealDevice:
+    """the device side as a whole on ONE long-lived nxslib `Device`: real dispatcher, real decoders, and the
+    per-channel attribute writes of intf/dummy.py::DummyDev._enable_cb/_div_cb"""
+
+    def __init__(self, n, en, div):
+        from nxslib.proto.parserecv import ParseRecv
+        from nxslib.proto.iparserecv import ParseRecvCb
+        self.n = n
+        self.dev = mk_device(n, en, div)
+        self.fired = None
+        self.R = ParseRecv(ParseRecvCb(cmninfo=self._other(0), chinfo=self._other(1), enable=self._en_cb,
+                                       div=self._div_cb, start=self._other(4)))
+
+    def _other(self, k):
+        def cb(data):
+            self.fired = k
+        return cb
+
+    def _en_cb(self, data):
+        self.fired = 2
+        enables = self.R.frame_enable_decode(data, self.dev)
+        for chid, en in enumerate(enables):
+            chan = self.dev.channel_get(chid)
+            assert chan
+            chan.data.en = en
+
+    def _div_cb(self, data):
+        self.fired = 3
+        dividers = self.R.frame_div_decode(data, self.dev)
+        for chid, div in enumerate(dividers):
+            chan = self.dev.channel_get(chid)
+            assert chan
+            chan.data.div = div
+
+    # ground truth: the channel objects themselves
+    def en(self):
+        return [bool(self.dev.channel_get(i).data.en) for i in range(self.n)]
+
+    def div(self):
+        return [int(self.dev.channel_get(i).data.div) for i in range(self.n)]
+
+    def recv(self, w):
+        self.fired = None
+        try:
+            self.R.recv_handle(w)
+        except Exception as e:
+            return "err " + exc_name(e)
+        if self.fired is None:
+            return "ign"
+        return f"cb{self.fired} {bits(self.en())}/{ints(self.div())}"
 
 
 def spec_payload(kind, req, n):
@@ -53,14 +146,178 @@ def apply_spec(payload, cur):
     return list(payload[2:2 + len(cur)])
 
 
+def wellformed_set(p, n):
+    return len(p) >= 3 and ((p[0] == 0 and p[1] < n and len(p) == 3) or (p[0] == 2 and len(p) == 3)
+                            or (p[0] == 1 and len(p) == 2 + n))
+
+
+def form_of(p):
+    return {0: "single", 1: "bulk", 2: "all"}.get(p[0], "?") if len(p) else "?"
+
+
+def split_frame(w):
+    """(fid, payload) of the serial frame at the first start byte of a write, by the harness's own codec; else None"""
+    from refdev import SerialCodec
+    c = SerialCodec()
+    i = c.find(w)
+    if i < 0:
+        return None
+    fr = c.decode_at(w, i)
+    return None if fr is None else (fr[0], fr[1])
+
+
+# -- structured vectors: where a wrong "all the same" shortcut or a signed/unsigned slip shows -----------------------
+def structured_divs(rng, n):
+    """(vector, tag) — all of length n, entries 0..255"""
+    out = []
+    v, w = rng.randrange(1, 256), rng.randrange(1, 256)
+    while w == v:
+        w = rng.randrange(1, 256)
+    if n >= 2:
+        for pos in sorted({0, n - 1, n // 2, rng.randrange(n)}):
+            out.append(([w if i == pos else v for i in range(n)], "oneoff-nonzero"))      # all non-zero, one differs
+        pos = rng.randrange(n)
+        out.append(([7 if i == pos else 0 for i in range(n)], "oneoff-zero"))
+        z = [0] * n
+        z[rng.randrange(n)] = rng.choice([1, 128, 255])
+        out.append((z, "oneoff-zero"))
+        tv = [rng.choice([v, w]) for _ in range(n)]
+        tv[0], tv[-1] = v, w
+        out.append((tv, "two-valued"))
+        hb = [(v ^ 0x80) if rng.random() < 0.5 else v for _ in range(n)]
+        hb[rng.randrange(n)] = v
+        hb[(hb.index(v) + 1) % n] = v ^ 0x80
+        out.append((hb, "hibit-pair"))
+        out.append(([1 + (i % 255) for i in range(n)], "all-nonzero-distinct"))
+        out.append(([255 - (i % 255) for i in range(n)], "all-nonzero-distinct"))
+    out.append(([v] * n, "all-equal-nonzero"))
+    out.append(([v ^ 0x80 or 128] * n, "all-equal-nonzero"))
+    return out
+
+
+def structured_ens(rng, n):
+    out = []
+    if n >= 2:
+        for base in (True, False):
+            for pos in sorted({0, n - 1, rng.randrange(n)}):
+                out.append(([(not base) if i == pos else base for i in range(n)], "oneoff"))
+        out.append(([i % 2 == 0 for i in range(n)], "alternating"))
+    return out
+
+
+# -- session level ----------------------------------------------------------------------------------------------------
+def gen_session(rng, n):
+    """calls of a caller who leaves the channels that are already configured alone: a few rounds of
+    (change some OTHER channels; write); rounds are chosen so that single, bulk and all requests all occur"""
+    flags = rng.choice([3, 3, 3, 1, 2])
+    en = [rng.random() < 0.4 for _ in range(n)]
+    en[rng.randrange(n)] = True                      # at least one channel is already enabled at connect
+    div = [rng.choice([0, 0, 3, 200, 255]) for _ in range(n)]
+    div[rng.randrange(n)] = rng.choice([1, 5, 128])  # at least one divider is already set
+    untouched = [i for i in range(n) if en[i]][:1] + [i for i in range(n) if div[i]][:1]
+    free = [i for i in range(n) if i not in untouched] or list(range(n))
+    ops = []
+    for _ in range(rng.randrange(2, 5)):
+        kind = rng.choice(["one", "some", "some", "all", "mixed"])
+        if kind == "one":
+            c = rng.choice(free)
+            ops.append(rng.choice([f"e{c}", f"d{c}", f"v{rng.choice([1, 9, 128, 255])}:{c}"]))
+        elif kind == "some":
+            cs = sorted(set(rng.choice(free) for _ in range(rng.randrange(2, 4))))
+            ops.append(rng.choice(["e", "d"]) + ",".join(map(str, cs)))
+            if rng.random() < 0.6:
+                for c in cs[:2]:
+                    ops.append(f"v{rng.choice([1, 2, 7, 128, 200, 255])}:{c}")
+        elif kind == "all":
+            ops.append(rng.choice(["A", "N", "D", f"v{rng.choice([0, 4, 129])}:" + ",".join(map(str, range(n)))]))
+        else:
+            c = rng.choice(free)
+            ops.append(f"e{c}")
+            ops.append(f"v{rng.choice([3, 130])}:{rng.choice(free)}")
+            ops.append(f"v{rng.choice([6, 250])}:{rng.choice(free)}")
+        ops.append("W:a:a")
+    return f"sess cfg {flags} {bits(en)} {ints(div)} {';'.join(ops)}"
+
+
+def judge_session(line):
+    """run the session on the real code; return (violation or None, stats)"""
+    import sessionlib as sl
+    t = line.split(" ")
+    flags, en0, div0, ops = int(t[2]), unbits(t[3]), unints(t[4]), t[5].split(";")
+    n = len(en0)
+    stats = {"en": {}, "div": {}}
+
+    def bad(key, what, exp, obs):
+        return {"key": key, "what": what, "expected": exp, "observed": obs, "case": line}, stats
+    try:
+        out, info = sl.run_cfg_history(flags, en0, div0, ops)
+    except Exception as e:
+        return bad("session-raises", f"session raised {type(e).__name__}: {e}", "no exception", exc_name(e))
+    if info["errors"]:
+        return bad("session-thread-died", "a library thread died: " + repr(info["errors"][0]), "-", "-")
+    dev = RealDevice(n, en0, div0)
+    want_en, want_div = list(en0), list(div0)
+    done = []
+    for op, st in zip(ops, out):
+        f = dict(kv.split("=", 1) for kv in st.split(";"))
+        done.append(op)
+        if f["e"] != "-":
+            return bad("session-call-raises", f"call {op} raised", "no exception", f["e"])
+        if op[0] == "e":
+            for c in op[1:].split(","):
+                want_en[int(c)] = True
+        elif op[0] == "d":
+            for c in op[1:].split(","):
+                want_en[int(c)] = False
+        elif op[0] == "v":
+            v, cs = op[1:].split(":")
+            for c in cs.split(","):
+                want_div[int(c)] = int(v)
+        elif op == "D":
+            want_en, want_div = [False] * n, [0] * n
+        elif op == "A":
+            want_en = [True] * n
+        elif op == "N":
+            want_en = [False] * n
+        sent = [] if f["s"] == "-" else [unhex(x) for x in f["s"].split(",")]
+        for w in sent:
+            fr = split_frame(w)
+            if fr is None or fr[0] not in (6, 7):
+                continue
+            kind = "en" if fr[0] == 6 else "div"
+            stats[kind][form_of(fr[1])] = stats[kind].get(form_of(fr[1]), 0) + 1
+            r = dev.recv(w)
+            if not r.startswith("cb"):
+                return bad("session-request-not-understood",
+                           f"after calls {';'.join(done)} the client wrote {hexs(w)} ({kind} request, {form_of(fr[1])} form) "
+                           f"which the device-side dispatcher/decoder did not accept", "callback runs", r)
+        if op.startswith("W:"):
+            exp_div = want_div if flags & 1 else div0
+            if dev.en() != [bool(x) for x in want_en] or dev.div() != exp_div:
+                return bad("session-device-state",
+                           f"device with {n} channels, state at connect en={bits(en0)} div={ints(div0)}, flags={flags}; caller: "
+                           f"{';'.join(done)}; requests written by this write: {','.join(hexs(sl.strip_pad(w)) for w in sent) or '-'}; "
+                           "state derived by the device-side decoders (ParseRecv.frame_enable_decode/frame_div_decode on a "
+                           "Device updated by per-channel writes) differs from the state the caller asked for"
+                           + state_diff(f"{bits(want_en)}/{ints(exp_div)}", f"{bits(dev.en())}/{ints(dev.div())}"),
+                           f"{bits(want_en)}/{ints(exp_div)}", f"{bits(dev.en())}/{ints(dev.div())}")
+    return None, stats
+
+
 class C05(Prop):
     id = "C05"
     lean_module = "NxsModel.Props.C05"
-    rule = ("request builders (start, cmninfo, chinfo, enable/div in single, all, bulk form) and device-side decoders "
-            "for channel counts {1,2,3,127,128,129,254,255} x all channel ids x values 0..255 (sampled in quick), "
-            "random vectors and current states, plus out-of-range arguments; distinct = distinct (op,input); "
-            "non-trivial = everything except the constant cmninfo request")
-    assumptions = ["CPython struct modelled by Struct.lean (cross-checked by these cases)"]
+    rule = ("request builders (start, cmninfo, chinfo, enable/div in single, all, bulk form) and device-side decoders (given a "
+            "real Device) for channel counts {1,2,3,16,64,127,128,129,200,254,255} x all channel ids x values 0..255 (sampled in "
+            "quick), random and structured vectors (one-off from constant, two-valued, v / v^0x80 pairs, all-equal-nonzero, "
+            "all-nonzero-distinct) and current states, out-of-range arguments; request histories on one long-lived Device "
+            "through the real dispatcher (single/bulk/all of both kinds interleaved, other requests and noise in between), "
+            "built by hand and by the real client builders; session level: real CommHandler against a reference device with "
+            "channels already enabled / dividers set at connect, every emitted set request decoded by the real device side; "
+            "distinct = distinct (op,input); non-trivial = everything except the constant cmninfo request")
+    assumptions = ["CPython struct modelled by Struct.lean (cross-checked by these cases)",
+                   "session-level part: virtual-time runtime (harness/vsim.py) and reference device (harness/refdev.py)"]
+    NS = [1, 2, 3, 16, 64, 127, 128, 129, 200, 254, 255]
 
     def __init__(self):
         from nxslib.proto.parse import Parser
@@ -69,6 +326,69 @@ class C05(Prop):
         self.P = Parser()
         n = lambda d: None
         self.R = ParseRecv(ParseRecvCb(n, n, n, n, n))
+
+    # -- generators ---------------------------------------------------------------------------------------------------
+    def hist_lines(self, rng, T):
+        """device-side histories on one long-lived device, frames by the harness's own encoder"""
+        for it in range(160 if T else 36):
+            n = rng.choice([2, 3, 4, 5, 8, 16]) if it % 6 != 5 else rng.choice([1, 64, 128, 129, 200, 255])
+            en = [rng.random() < 0.5 for _ in range(n)]
+            div = [rng.choice([0, 0, 1, 5, 128, 200, 255]) for _ in range(n)]
+            ws = []
+            tag = "hist"
+
+            def single(kind):
+                v = rng.randrange(2) if kind == 6 else rng.choice([0, 1, 127, 128, 255, rng.randrange(256)])
+                return ref_frame(kind, bytes([0, rng.randrange(n), v]))
+
+            def whole(kind):
+                if rng.random() < 0.35:
+                    return ref_frame(kind, bytes([2, 0, rng.randrange(2) if kind == 6 else rng.choice([0, 3, 128, 255])]))
+                vs = [rng.randrange(2) for _ in range(n)] if kind == 6 else rng.choice(structured_divs(rng, n))[0]
+                return ref_frame(kind, bytes([1, 0] + [int(v) for v in vs]))
+            # the patterns of the review: single -> bulk/all -> single, for both kinds, interleaved
+            for _ in range(rng.randrange(1, 4)):
+                k = rng.choice([6, 7])
+                ws += [single(k), whole(k), single(k)]
+                if rng.random() < 0.5:
+                    ws += [single(13 - k), whole(13 - k), single(13 - k)]
+                if rng.random() < 0.4:
+                    ws.append(rng.choice([ref_frame(2, b""), ref_frame(3, bytes([rng.randrange(n)])),
+                                          ref_frame(5, bytes([rng.randrange(2)])), bytes(rng.randrange(1, 9)),
+                                          b"\x00\x13" + ref_frame(6, bytes([0, 0, 1])) + bytes(3)]))
+            if it % 9 == 4:
+                tag = "hist-malformed"
+                bad = rng.choice([ref_frame(6, bytes([0, n, 1])), ref_frame(7, bytes([3, 0, 1])), ref_frame(6, bytes([1, 0] + [1] * (n - 1))),
+                                  ref_frame(7, bytes([0, 0])), ref_frame(4, b"\0\0\0\0"), ref_frame(6, b""), ref_frame(2, b"\1"),
+                                  ref_frame(6, bytes([0, 0, 1]))[:-1] + b"\x00"])
+                ws.insert(rng.randrange(len(ws) + 1), bad)
+            yield f"req hist {n} {bits(en)} {ints(div)} {','.join(hexs(w) for w in ws)}", tag
+
+    def sess_lines(self, rng, T):
+        """the same device fed by the real client builders"""
+        for it in range(200 if T else 40):
+            n = rng.choice([2, 3, 4, 5, 8, 16]) if it % 6 != 5 else rng.choice([1, 64, 128, 129, 200, 255])
+            en = [rng.random() < 0.5 for _ in range(n)]
+            div = [rng.choice([0, 0, 1, 5, 128, 200, 255]) for _ in range(n)]
+            pad = rng.choice([0, 0, 1, 3, 4, 16, 64, 255])
+            asks = []
+            for _ in range(rng.randrange(3, 9)):
+                r = rng.random()
+                if r < 0.25:
+                    asks.append(f"e{rng.randrange(n)}={rng.randrange(2)}")
+                elif r < 0.5:
+                    asks.append(f"d{rng.randrange(n)}={rng.choice([0, 1, 127, 128, 255, rng.randrange(256)])}")
+                elif r < 0.72:
+                    vs = rng.choice(structured_ens(rng, n) + [([rng.random() < 0.5 for _ in range(n)], ""), ([rng.random() < 0.5] * n, "")])[0]
+                    asks.append("E" + bits(vs))
+                else:
+                    vs = rng.choice(structured_divs(rng, n) + [([rng.randrange(256) for _ in range(n)], "")])[0]
+                    asks.append("D" + ints(vs))
+            tag = "sess"
+            if it % 10 == 7:
+                tag = "sess-malformed"
+                asks.insert(rng.randrange(len(asks) + 1), rng.choice([f"e{n}=1", "d0=256", "E" + "1" * (n + 1), "D" + ints([1] * (n - 1) or [1, 1])]))
+            yield f"req sess {n} {pad} {bits(en)} {ints(div)} {';'.join(asks)}", tag
 
     def cases(self, rng, tier):
         T = tier == "thorough"
@@ -81,8 +401,7 @@ class C05(Prop):
             yield f"req dstart {hexs(bytes([v]))}", "dstart"
         yield "req dstart -", "dstart"
         yield "req dstart 0100", "dstart"
-        ns = [1, 2, 3, 127, 128, 129, 254, 255]
-        for n in ns:
+        for n in self.NS:
             chans = range(n) if T else sorted(set([0, n - 1, n // 2] + [rng.randrange(n) for _ in range(6)]))
             for c in chans:
                 vals = range(256) if (T and n <= 3) else [0, 1, 127, 128, 200, 255, rng.randrange(256)]
@@ -108,6 +427,15 @@ class C05(Prop):
                 yield f"req en vec {bits(es)} {n}", "en-bulk"
                 yield f"req den {hexs(bytes([1, 0] + [int(e) for e in es]))} {n} {bits([False] * n)}", "den-bulk"
                 yield f"req den {hexs(bytes([1, 0] + [rng.randrange(256) for _ in es]))} {n} {bits([False] * n)}", "den-bulk-anybyte"
+            for _ in range(4 if T else 1):
+                for vs, tag in structured_divs(rng, n):
+                    yield f"req div vec {ints(vs)} {n}", "div-vec-" + tag
+                    yield f"req ddiv {hexs(bytes([1, 0] + vs))} {n} {ints([rng.randrange(256) for _ in range(n)])}", "ddiv-bulk-" + tag
+                for es, tag in structured_ens(rng, n):
+                    yield f"req en vec {bits(es)} {n}", "en-vec-" + tag
+                    yield f"req den {hexs(bytes([1, 0] + [int(e) for e in es]))} {n} {bits([rng.random() < 0.5 for _ in range(n)])}", "den-bulk-" + tag
+        yield from self.hist_lines(rng, T)
+        yield from self.sess_lines(rng, T)
         # malformed / out-of-range
         for line in ["req div single 0 256 4", "req div single 0 -1 4", "req div single 256 1 4", "req div single -1 1 4",
                      "req en single 256 1 4", "req div vec 1,2,300 3", "req div vec 1,2 3", "req en vec 10 3", "req en vec - 0",
@@ -116,6 +444,51 @@ class C05(Prop):
                      "req den 0100 2 00", "req den 01000101 3 000", "req den 0100010101 3 000", "req ddiv 0100 2 0,0",
                      "req den 0200 2 00", "req ddiv 0200 2 0,0", "req den 0000 2 00", "req ddiv 0000 2 0,0"]:
             yield line, "malformed"
+
+    # -- the real code ------------------------------------------------------------------------------------------------
+    def run_hist(self, t):
+        n = int(t[2])
+        dev = RealDevice(n, unbits(t[3]), unints(t[4]))
+        return [dev.recv(unhex(w)) for w in t[5].split(",")]
+
+    def build_ask(self, a, n):
+        if a[0] == "e":
+            c, v = a[1:].split("=")
+            return self.P.frame_enable((int(c), bool(int(v))), n)
+        if a[0] == "E":
+            return self.P.frame_enable(unbits(a[1:] or "-"), n)
+        if a[0] == "d":
+            c, v = a[1:].split("=")
+            return self.P.frame_div((int(c), int(v)), n)
+        if a[0] == "D":
+            return self.P.frame_div(unints(a[1:] or "-"), n)
+        raise ValueError(a)
+
+    @staticmethod
+    def aligner(pad):
+        from nxslib.intf.iintf import CommInterfaceCommon
+        intf = CommInterfaceCommon(lambda: b"", lambda d: None)
+        intf.write_padding = pad
+        return intf.data_align
+
+    def run_sess(self, t, trace=None):
+        """-> final output line; trace (list) receives (ask, written bytes, device answer) per step"""
+        n, pad = int(t[2]), int(t[3])
+        dev = RealDevice(n, unbits(t[4]), unints(t[5]))
+        align = self.aligner(pad)
+        for a in t[6].split(";"):
+            try:
+                w = align(self.build_ask(a, n))
+            except Exception as e:
+                if trace is not None:
+                    trace.append((a, None, "err " + exc_name(e)))
+                return "err " + exc_name(e)
+            r = dev.recv(w)
+            if trace is not None:
+                trace.append((a, w, r))
+            if r.startswith("err"):
+                return r
+        return f"ok {bits(dev.en())}/{ints(dev.div())}"
 
     def impl(self, line):
         t = line.split(" ")
@@ -130,26 +503,26 @@ class C05(Prop):
                 n = int(t[-1])
                 if t[2] == "single":
                     return "ok " + hexs(self.P.frame_enable((int(t[3]), bool(int(t[4]))), n))
-                vs = [] if t[3] == "-" else [c == "1" for c in t[3]]
-                return "ok " + hexs(self.P.frame_enable(vs, n))
+                return "ok " + hexs(self.P.frame_enable(unbits(t[3]), n))
             if t[1] == "div":
                 n = int(t[-1])
                 if t[2] == "single":
                     return "ok " + hexs(self.P.frame_div((int(t[3]), int(t[4])), n))
-                vs = [] if t[3] == "-" else [int(x) for x in t[3].split(",")]
-                return "ok " + hexs(self.P.frame_div(vs, n))
+                return "ok " + hexs(self.P.frame_div(unints(t[3]), n))
             if t[1] == "dstart":
                 return "ok " + ("1" if self.R.frame_start_decode(unhex(t[2])) else "0")
             if t[1] == "den":
                 n = int(t[3])
-                cur = [] if t[4] == "-" else [c == "1" for c in t[4]]
-                r = self.R.frame_enable_decode(unhex(t[2]), FakeDev(n, cur, []))
+                r = self.R.frame_enable_decode(unhex(t[2]), mk_device(n, unbits(t[4]), other_vec(line, n, "en")))
                 return "ok " + bits(bool(x) for x in r)
             if t[1] == "ddiv":
                 n = int(t[3])
-                cur = [] if t[4] == "-" else [int(x) for x in t[4].split(",")]
-                r = self.R.frame_div_decode(unhex(t[2]), FakeDev(n, [], cur))
+                r = self.R.frame_div_decode(unhex(t[2]), mk_device(n, other_vec(line, n, "div"), unints(t[4])))
                 return "ok " + ints(r)
+            if t[1] == "hist":
+                return "ok " + " | ".join(self.run_hist(t))
+            if t[1] == "sess":
+                return self.run_sess(t)
         except Exception as e:
             return "err " + exc_name(e)
         raise ValueError(line)
@@ -157,10 +530,14 @@ class C05(Prop):
     def nontrivial(self, line, out):
         return line != "req cmninfo"
 
+    # -- the property ---------------------------------------------------------------------------------------------------
     def oracle(self, line, impl_out=None):
         """builders: emitted bytes are the NxScope encoding; device decoder on that payload recovers the intent;
-        whichever form is picked, the derived state equals the intended state."""
+        whichever form is picked — and whatever was received before on the same device — the derived state equals the
+        intended state."""
         t = line.split(" ")
+        if t[0] == "sess":
+            return judge_session(line)[0]
         from nxslib.proto.parse import Parser
         from nxslib.proto.parserecv import ParseRecv
         from nxslib.proto.iparserecv import ParseRecvCb
@@ -187,6 +564,11 @@ class C05(Prop):
                     f = P.frame_chinfo(c)
                     if f != ref_frame(3, bytes([c])):
                         return bad("chinfo-bytes", f"chinfo request for channel {c}", hexs(ref_frame(3, bytes([c]))), hexs(f))
+                    got = []
+                    ParseRecv(ParseRecvCb(nn, got.append, nn, nn, nn)).recv_handle(f)
+                    if got != [bytes([c])]:
+                        return bad("chinfo-dispatch", f"payload handed to the device's chinfo callback for channel {c}",
+                                   hexs(bytes([c])), repr(got))
             elif t[1] in ("en", "div") and t[2] in ("single", "vec"):
                 n = int(t[-1])
                 kind = t[1]
@@ -197,7 +579,7 @@ class C05(Prop):
                     req = ("single", c, v)
                     arg = (c, bool(v)) if kind == "en" else (c, v)
                 else:
-                    vs = [] if t[3] == "-" else ([c == "1" for c in t[3]] if kind == "en" else [int(x) for x in t[3].split(",")])
+                    vs = unbits(t[3]) if kind == "en" else unints(t[3])
                     if not (1 <= n <= 255 and len(vs) == n and all(0 <= int(v) <= 255 for v in vs)):
                         return None
                     req = ("vec", vs)
@@ -207,45 +589,160 @@ class C05(Prop):
                 exp = ref_frame(fid, spec_payload(kind, req, n))
                 if f != exp:
                     return bad(f"{kind}-bytes", f"{kind} request {req[0]} bytes", hexs(exp), hexs(f))
-                # device-side decoder on what the client emitted, from an arbitrary current state
-                import random
+                # device side (dispatcher + decoder + per-channel writes) on what the client emitted, from an arbitrary state
+                # (single-channel requests of big devices: one line in three — every channel id of every device size also
+                # goes through the decoders in the den/ddiv lines)
+                if req[0] == "single" and n > 16 and zlib.crc32(line.encode()) % 3:
+                    return None
                 r = random.Random(line)
-                cur = [r.randrange(2 if kind == "en" else 256) for _ in range(n)]
-                want = apply_spec(f[4:-2], cur)
+                cur_en = [r.randrange(2) for _ in range(n)]
+                cur_div = [r.randrange(256) for _ in range(n)]
+                dev = RealDevice(n, cur_en, cur_div)
+                ans = dev.recv(f)
                 if kind == "en":
-                    got = R.frame_enable_decode(f[4:-2], FakeDev(n, [bool(x) for x in cur], []))
-                    got = [int(bool(x)) for x in got]
-                    want = [int(bool(x)) for x in want]
+                    want = ([int(bool(x)) for x in apply_spec(f[4:-2], cur_en)], cur_div)
                 else:
-                    got = list(R.frame_div_decode(f[4:-2], FakeDev(n, [], cur)))
-                if got != want:
-                    return bad(f"{kind}-device-state", f"state the device derives from the {req[0]} {kind} request",
-                               str(want), str(got))
+                    want = (cur_en, apply_spec(f[4:-2], cur_div))
+                got = ([int(x) for x in dev.en()], dev.div())
+                if not ans.startswith("cb") or got != want:
+                    ws, gs = f"{bits(want[0])}/{ints(want[1])}", f"{bits(got[0])}/{ints(got[1])}"
+                    return bad(f"{kind}-device-state", f"state the device (en={bits(cur_en)} div={ints(cur_div)} before) derives from "
+                               f"the {req[0]} {kind} request {hexs(f)}" + state_diff(ws, gs), ws,
+                               gs if ans.startswith("cb") else ans)
             elif t[1] in ("den", "ddiv"):
                 d = unhex(t[2])
                 n = int(t[3])
                 kind = "en" if t[1] == "den" else "div"
-                cur = [] if t[4] == "-" else ([int(c == "1") for c in t[4]] if kind == "en" else [int(x) for x in t[4].split(",")])
-                wf = len(d) >= 3 and len(cur) == n and ((d[0] == 0 and d[1] < n and len(d) == 3) or (d[0] == 2 and len(d) == 3)
-                                                        or (d[0] == 1 and len(d) == 2 + n))
-                if not wf or n < 1:
+                cur = [int(x) for x in unbits(t[4])] if kind == "en" else unints(t[4])
+                if not (len(cur) == n and n >= 1 and wellformed_set(d, n)):
                     return None
                 want = apply_spec(d, cur)
+                oth = other_vec(line, n, kind)
                 if kind == "en":
-                    got = [int(bool(x)) for x in R.frame_enable_decode(d, FakeDev(n, [bool(x) for x in cur], []))]
+                    got = [int(bool(x)) for x in R.frame_enable_decode(d, mk_device(n, cur, oth))]
                     want = [int(bool(x)) for x in want]
                 else:
-                    got = list(R.frame_div_decode(d, FakeDev(n, [], cur)))
+                    got = list(R.frame_div_decode(d, mk_device(n, oth, cur)))
                 if got != want:
-                    return bad(f"{kind}-decode", f"device-side {kind} decoder", str(want), str(got))
+                    dl = [f"[{i}] {a}->{b}" for i, (a, b) in enumerate(zip(want, got)) if a != b or type(a) is not type(b)]
+                    return bad(f"{kind}-decode", f"device-side {kind} decoder on payload {hexs(d)} ({form_of(d)} form), {n} channels; "
+                               f"differs (intended->decoded) at {', '.join(dl[:8])}" + (f" and {len(dl) - 8} more" if len(dl) > 8 else "")
+                               + f" (length {len(want)}->{len(got)}); device state before: "
+                               + (f"en={bits(cur)} div={ints(oth)}" if kind == "en" else f"en={bits(oth)} div={ints(cur)}"),
+                               str(want), str(got))
             elif t[1] == "dstart":
                 d = unhex(t[2])
                 if len(d) == 1:
                     if R.frame_start_decode(d) is not (d[0] != 0):
                         return bad("dstart", "device-side start decoder", str(d[0] != 0), "other")
+            elif t[1] == "hist":
+                return self.oracle_hist(t)
+            elif t[1] == "sess":
+                return self.oracle_sess(t)
         except Exception as e:
             return bad("request-raises", f"well-formed request raised {type(e).__name__}: {e}", "no exception", exc_name(e))
         return None
+
+    def oracle_hist(self, t):
+        """each well-formed set request received by one long-lived device changes its state as the protocol says"""
+        n = int(t[2])
+        en, div = [int(x) for x in unbits(t[3])], unints(t[4])
+        if n < 1 or len(en) != n or len(div) != n:
+            return None
+        dev = RealDevice(n, en, div)
+        seen = []
+        for wx in t[5].split(","):
+            w = unhex(wx)
+            fr = split_frame(w)
+            if fr is None:
+                exp = "ign"
+            elif fr[0] in (6, 7):
+                if not wellformed_set(fr[1], n):
+                    return None          # outside the quantifier from here on
+                if fr[0] == 6:
+                    en = [int(bool(x)) for x in apply_spec(fr[1], en)]
+                else:
+                    div = apply_spec(fr[1], div)
+                exp = f"cb{fr[0] - 4} {bits(en)}/{ints(div)}"
+            elif (fr[0], len(fr[1])) in ((2, 0), (3, 1), (5, 1)):
+                exp = f"cb{ {2: 0, 3: 1, 5: 4}[fr[0]]} {bits(en)}/{ints(div)}"
+            else:
+                return None
+            got = dev.recv(w)
+            seen.append(wx)
+            if got != exp:
+                what = (f"device with {n} channels (en={t[3]} div={t[4]} at first), after receiving {','.join(seen[:-1]) or 'nothing'}: "
+                        f"outcome of receiving {wx}" + (f" ({'enable' if fr[0] == 6 else 'divider'} request, {form_of(fr[1])} form)"
+                                                        if fr and fr[0] in (6, 7) else ""))
+                if exp.startswith("cb") and got.startswith("cb"):
+                    what += state_diff(exp.split(" ")[1], got.split(" ")[1])
+                return {"key": "hist-device-state", "what": what, "expected": exp, "observed": got}
+        return None
+
+    def oracle_sess(self, t):
+        """the caller's asks, applied one after the other, are the device's state — whichever form each one travelled in"""
+        n = int(t[2])
+        en, div = [int(x) for x in unbits(t[4])], unints(t[5])
+        asks = t[6].split(";")
+        if n < 1 or len(en) != n or len(div) != n:
+            return None
+        want = []
+        for a in asks:
+            if a[0] in "ed":
+                c, v = (int(x) for x in a[1:].split("="))
+                if not (0 <= c < n and 0 <= v <= (1 if a[0] == "e" else 255)):
+                    return None
+                if a[0] == "e":
+                    en = en[:c] + [v] + en[c + 1:]
+                else:
+                    div = div[:c] + [v] + div[c + 1:]
+            else:
+                vs = [int(x) for x in unbits(a[1:] or "-")] if a[0] == "E" else unints(a[1:] or "-")
+                if len(vs) != n or not all(0 <= v <= 255 for v in vs):
+                    return None
+                if a[0] == "E":
+                    en = vs
+                else:
+                    div = vs
+            want.append(f"{bits(en)}/{ints(div)}")
+        trace = []
+        self.run_sess(t, trace)
+        for i, (a, w, r) in enumerate(trace):
+            if not r.startswith("cb") or r.split(" ")[1] != want[i]:
+                fr = split_frame(w) if w else None
+                return {"key": "sess-device-state",
+                        "what": f"device with {n} channels (en={t[4]} div={t[5]} at first), asks {';'.join(asks[:i + 1])}: the last one was "
+                                f"written as {hexs(w) if w else '-'}" + (f" ({form_of(fr[1])} form)" if fr else "") + "; device state after it"
+                                + (state_diff(want[i], r.split(" ")[1]) if r.startswith("cb") else ""),
+                        "expected": want[i], "observed": r.split(" ")[1] if r.startswith("cb") else r}
+        return None
+
+    # -- session level ----------------------------------------------------------------------------------------------------
+    def session_lines(self, rng, tier):
+        T = tier == "thorough"
+        # the two shapes named in the review, fixed
+        yield "sess cfg 3 1000 0,0,0,0 e1,2;W:a:a"
+        yield "sess cfg 3 0100 0,6,0,0 e0;v5:0;W:a:a;e2,3;v7:2,3;W:a:a;d0;v9:3;W:a:a"
+        for it in range(150 if T else 40):
+            n = rng.choice([2, 3, 4, 5, 6, 8]) if it % 8 else rng.choice([16, 64, 130, 255])
+            yield gen_session(rng, n)
+
+    def extra_checks(self, rng, tier, ev):
+        out = []
+        forms = {"en": {}, "div": {}}
+        k = 0
+        for line in self.session_lines(rng, tier):
+            k += 1
+            v, st = judge_session(line)
+            for kind in forms:
+                for f, c in st[kind].items():
+                    forms[kind][f] = forms[kind].get(f, 0) + c
+            if v:
+                out.append(v)
+                if len(out) >= 3:
+                    break
+        ev["coverage"]["sessions"] = {"run": k, "request_forms_emitted": forms}
+        return out
 
 
 PROP = C05()
